@@ -8,12 +8,14 @@ package agent
 import (
 	"context"
 	"fmt"
+	"net"
 	"os"
 	"path/filepath"
 	"testing"
 	"time"
 
 	"github.com/postalsys/muti-metroo/internal/health"
+	"github.com/postalsys/muti-metroo/internal/protocol"
 	"github.com/postalsys/muti-metroo/internal/verifkit"
 )
 
@@ -80,6 +82,45 @@ func TestVerif_C02_Mesh(t *testing.T) {
 			}
 			cancel()
 		}
+		// UDP associations, with an adversarial relay that duplicates every *_OPEN_ACK it
+		// carries (a duplicate ack must not restart a session's nonce sequence under the same key)
+		{
+			tap := mkInstallTap()
+			tap.mu.Lock()
+			tap.onPayload = func(ev *mkFrameEv, payload []byte) {
+				if ev.Write || ev.Local != ing.ID() {
+					return
+				}
+				if ev.Type != protocol.FrameUDPOpenAck && ev.Type != protocol.FrameStreamOpenAck {
+					return
+				}
+				f := &protocol.Frame{Type: ev.Type, StreamID: ev.StreamID, Payload: append([]byte(nil), payload...)}
+				from := ev.Remote
+				go func() {
+					time.Sleep(30 * time.Millisecond) // after the first datagrams went out
+					if n, ok := m.byID[from]; ok {
+						n.a.peerMgr.SendToPeer(ing.ID(), f)
+					}
+				}()
+			}
+			tap.mu.Unlock()
+			for k := 0; k < rng.Range(2, 4); k++ {
+				ctx, cancel := context.WithTimeout(context.Background(), 15*time.Second)
+				sid, err := ing.CreateUDPAssociation(ctx, &net.UDPAddr{IP: net.IPv4(127, 0, 0, 1), Port: 5000 + k})
+				if err == nil {
+					for d := 0; d < 12; d++ {
+						ip := []byte{127, 1, 5, byte(1 + k)}
+						if ing.RelayUDPDatagram(sid, &net.UDPAddr{IP: net.IP(ip), Port: echo.port}, uint16(echo.port), protocol.AddrTypeIPv4, ip, rng.Bytes(1+rng.Intn(600))) == nil {
+							r.Add("mesh_udp_datagrams_relayed", 1)
+						}
+						time.Sleep(10 * time.Millisecond)
+					}
+					ing.CloseUDPAssociation(sid)
+				}
+				cancel()
+			}
+			tap.close()
+		}
 		ct.mu.Lock()
 		seals, keys := ct.nSeals, map[[8]byte]bool{}
 		for k := range ct.seals {
@@ -97,7 +138,7 @@ func TestVerif_C02_Mesh(t *testing.T) {
 		r.Add("mesh_transfers_completed", done)
 		r.Eval(fmt.Sprintf("mesh/%d/%d/%d", ci, seals, len(keys)), seals >= 100 && len(keys) >= 5)
 		if r.NeedSample() {
-			r.Sample(map[string]any{"seals": seals, "keys": len(keys), "transfers_completed": done, "kinds": "tcp,forward,shell,file-upload,file-download"})
+			r.Sample(map[string]any{"seals": seals, "keys": len(keys), "transfers_completed": done, "kinds": "tcp,forward,shell,file-upload,file-download,udp(with duplicated acks)"})
 		}
 	})
 	r.Require("mesh_seals_observed", 300)
